@@ -210,7 +210,7 @@ Proof.
   apply enact_ext in E.
   destruct br.
   - injection H as _ <- _. ext_tac.
-  - apply IH in H. eapply ext_trans; eassumption.
+  - destruct (top_code_empty _); [injection H as _ <- _; ext_tac|]. apply IH in H. eapply ext_trans; eassumption.
   - injection H as _ <- _. ext_tac.
   - apply IH in H. eapply ext_trans; eassumption.
   - injection H as _ <- _. ext_tac.
